@@ -200,7 +200,8 @@ pub fn run(opts: &Opts) -> i32 {
                 *features.entry(f).or_insert(0) += v;
             }
             let prefix = if rng.chance(1, 3) { directive(&mut rng) } else { String::new() };
-            let suffix = if prefix.is_empty() { "" } else { "+directive" };
+            // a directive in front or anywhere inside
+            let suffix = if prefix.is_empty() && !text.contains("format(") { "" } else { "+directive" };
             inputs.push((format!("generated:{k}{suffix}"), format!("{prefix}{text}")));
             for _ in 0..2 {
                 if let Some(doubled) = double_parens(&text, &mut rng) {
